@@ -23,6 +23,7 @@ var _ = types.Identical
 type replySite struct {
 	Kind string          // bulk, null, string, int, error, array, plain
 	At   ssa.Instruction // the MakeInterface (or the call of a helper) inside the executor itself: where path facts are asked
+	In   ssa.Instruction // the MakeInterface itself, wherever it is (the executor, a closure, a helper)
 	Pos  token.Pos
 	Via  string // helper chain, for reports
 }
@@ -94,7 +95,7 @@ func (c *C) replySites(fn *ssa.Function) (sites []replySite, unknown []string) {
 			if pos == token.NoPos {
 				pos = x.X.Pos()
 			}
-			sites = append(sites, replySite{Kind: kind, At: a, Pos: pos, Via: via})
+			sites = append(sites, replySite{Kind: kind, At: a, In: x, Pos: pos, Via: via})
 		case *ssa.ChangeInterface:
 			walk(x.X, at, via, depth)
 		case *ssa.Phi:
@@ -207,6 +208,7 @@ var rR32 = RuleRef{Name: "R32", Doc: "the kind of every reply is the one the com
 		// the reply kind follows the presence of the optional count (argument vector of length 2: absent, 3 or more: present)
 		p := c.newProver(fn)
 		cmdLen := p.lenOf(fn.Params[2])
+		arity := c.newArityFlow(fn, fn.Params[2])
 		bad = nil
 		for _, s := range sites {
 			var need string
@@ -220,10 +222,20 @@ var rR32 = RuleRef{Name: "R32", Doc: "the kind of every reply is the one the com
 			}
 			nCond++
 			var proved bool
-			if need == "absent" {
-				proved = p.ProveLE(cmdLen, lt{"0", 0}, 2, s.At)
-			} else {
-				proved = p.ProveLE(lt{"0", 0}, cmdLen, -3, s.At)
+			// first the arity flow (which argument counts can reach the site, through flags, closures and helpers), then the prover
+			if mask, ok := arity.at(s.In); ok {
+				if need == "absent" {
+					proved = mask&^0b111 == 0
+				} else {
+					proved = mask&0b111 == 0
+				}
+			}
+			if !proved {
+				if need == "absent" {
+					proved = p.ProveLE(cmdLen, lt{"0", 0}, 2, s.At)
+				} else {
+					proved = p.ProveLE(lt{"0", 0}, cmdLen, -3, s.At)
+				}
 			}
 			if !proved {
 				what := map[string]string{"absent": "without a count (cannot show len(cmd) <= 2 here)", "present": "with a count (cannot show len(cmd) >= 3 here)"}[need]
@@ -669,6 +681,13 @@ var rR22e = RuleRef{Name: "R22e", Doc: "EXPIRE's options act only under their st
 							if cf := callee(x); cf != nil && cf.Signature.Recv() != nil && namedOf(cf.Signature.Recv().Type()) == "TTLInfo" && isIntType(x.Type()) {
 								derived[v], changed = true, true
 							}
+						case *ssa.Extract:
+							// (deadline, ok) := helper(..): an integer result of a first-party helper that reads the deadline field
+							if call, ok := x.Tuple.(*ssa.Call); ok && isIntType(x.Type()) {
+								if cf := callee(call); cf != nil && firstParty(cf) && returnsDeadline(cf, x.Index, 0) {
+									derived[v], changed = true, true
+								}
+							}
 						}
 					}
 				}
@@ -742,3 +761,471 @@ var rR22e = RuleRef{Name: "R22e", Doc: "EXPIRE's options act only under their st
 	}
 	c.Count("R22e_option_paths", n)
 }}
+
+// returnsDeadline: some return of fn hands out, as result idx, a value read from TTLInfo's integer field.
+func returnsDeadline(fn *ssa.Function, idx int, depth int) bool {
+	if fn == nil || len(fn.Blocks) == 0 || depth > 2 {
+		return false
+	}
+	var is func(v ssa.Value, seen map[ssa.Value]bool) bool
+	is = func(v ssa.Value, seen map[ssa.Value]bool) bool {
+		if seen[v] {
+			return false
+		}
+		seen[v] = true
+		switch x := v.(type) {
+		case *ssa.UnOp:
+			if fa, ok := x.X.(*ssa.FieldAddr); ok && x.Op == token.MUL && namedOf(fa.X.Type()) == "TTLInfo" {
+				return true
+			}
+			if al, ok := x.X.(*ssa.Alloc); ok && x.Op == token.MUL && al.Referrers() != nil {
+				for _, r := range *al.Referrers() {
+					if st, ok := r.(*ssa.Store); ok && st.Addr == ssa.Value(al) && is(st.Val, seen) {
+						return true
+					}
+				}
+			}
+		case *ssa.Phi:
+			for _, e := range x.Edges {
+				if is(e, seen) {
+					return true
+				}
+			}
+		case *ssa.Extract:
+			if call, ok := x.Tuple.(*ssa.Call); ok {
+				return returnsDeadline(callee(call), x.Index, depth+1)
+			}
+		case *ssa.Call:
+			if cf := callee(x); cf != nil && cf.Signature.Recv() != nil && namedOf(cf.Signature.Recv().Type()) == "TTLInfo" {
+				return true
+			}
+			return returnsDeadline(callee(x), 0, depth+1)
+		}
+		return false
+	}
+	for _, b := range fn.Blocks {
+		if ret, ok := b.Instrs[len(b.Instrs)-1].(*ssa.Return); ok && idx < len(ret.Results) {
+			for _, v := range retResults(ret)[idx] {
+				if is(v, map[ssa.Value]bool{}) {
+					return true
+				}
+			}
+		}
+	}
+	return false
+}
+
+// ---------- arity flow: which lengths of the argument vector can reach a program point ----------
+
+// arityFlow computes, for every block of an executor, its closures and the first-party helpers it calls, the set of
+// argument-vector lengths (bit i: len(cmd) == i, bit 9: len(cmd) >= 9) with which the block can be reached. Branch
+// conditions are interpreted when they resolve -- through boolean locals, variables captured by closures and boolean
+// parameters bound to the same expression at every call -- to a comparison of len(cmd) with a constant.
+type arityFlow struct {
+	c      *C
+	exec   *ssa.Function
+	cmd    *ssa.Parameter
+	in     map[*ssa.BasicBlock]uint16
+	entry  map[*ssa.Function]uint16
+	family map[*ssa.Function]bool
+}
+
+const arityAll = uint16(0b1111111110) // an executor is never called with an empty vector
+
+func (c *C) newArityFlow(exec *ssa.Function, cmd *ssa.Parameter) *arityFlow {
+	a := &arityFlow{c: c, exec: exec, cmd: cmd, in: map[*ssa.BasicBlock]uint16{}, entry: map[*ssa.Function]uint16{}, family: map[*ssa.Function]bool{}}
+	var add func(f *ssa.Function, depth int)
+	add = func(f *ssa.Function, depth int) {
+		if f == nil || a.family[f] || len(f.Blocks) == 0 || depth > 3 {
+			return
+		}
+		a.family[f] = true
+		for _, an := range f.AnonFuncs {
+			add(an, depth)
+		}
+		for _, b := range f.Blocks {
+			for _, in := range b.Instrs {
+				if ci, ok := in.(ssa.CallInstruction); ok {
+					if cf := callee(ci); cf != nil && firstParty(cf) && cf.Pkg == exec.Pkg && a.c.Facts.ExecNames[cf] == nil {
+						add(cf, depth+1)
+					}
+				}
+			}
+		}
+	}
+	add(exec, 0)
+	a.entry[exec] = arityAll
+	for iter := 0; iter < 6; iter++ {
+		changed := false
+		for f := range a.family {
+			if a.run(f) {
+				changed = true
+			}
+		}
+		// entries of closures and helpers: the union over their call sites inside the family
+		for f := range a.family {
+			if f == exec {
+				continue
+			}
+			var m uint16
+			called := false
+			for g := range a.family {
+				for _, b := range g.Blocks {
+					for _, in := range b.Instrs {
+						ci, ok := in.(ssa.CallInstruction)
+						if !ok {
+							continue
+						}
+						if _, isGo := in.(*ssa.Go); isGo {
+							continue
+						}
+						if a.calleeOf(ci) == f {
+							called = true
+							m |= a.in[b]
+						}
+					}
+				}
+			}
+			if !called {
+				m = arityAll // handed to someone else: no knowledge
+			}
+			if m != a.entry[f] {
+				a.entry[f] = m
+				changed = true
+			}
+		}
+		if !changed {
+			break
+		}
+	}
+	return a
+}
+
+// calleeOf also resolves a call of a closure value made in the same family (f := func(){..}; f()).
+func (a *arityFlow) calleeOf(ci ssa.CallInstruction) *ssa.Function {
+	if cf := callee(ci); cf != nil {
+		return cf
+	}
+	v := ci.Common().Value
+	for i := 0; i < 4; i++ {
+		switch x := v.(type) {
+		case *ssa.MakeClosure:
+			if f, ok := x.Fn.(*ssa.Function); ok {
+				return f
+			}
+			return nil
+		case *ssa.UnOp:
+			if al, ok := x.X.(*ssa.Alloc); ok && x.Op == token.MUL {
+				if sv := singleStore(al); sv != nil {
+					v = sv
+					continue
+				}
+			}
+			return nil
+		default:
+			return nil
+		}
+	}
+	return nil
+}
+
+func (a *arityFlow) run(f *ssa.Function) bool {
+	changed := false
+	set := func(b *ssa.BasicBlock, m uint16) {
+		if a.in[b]|m != a.in[b] {
+			a.in[b] |= m
+			changed = true
+		}
+	}
+	set(f.Blocks[0], a.entry[f])
+	for iter := 0; iter < 50; iter++ {
+		before := changed
+		changed = false
+		for _, b := range f.Blocks {
+			m := a.in[b]
+			if m == 0 || len(b.Instrs) == 0 {
+				continue
+			}
+			if br, ok := b.Instrs[len(b.Instrs)-1].(*ssa.If); ok && len(b.Succs) == 2 {
+				t, fl := a.filter(br.Cond, m, f, 0)
+				set(b.Succs[0], t)
+				set(b.Succs[1], fl)
+				continue
+			}
+			for _, sc := range b.Succs {
+				set(sc, m)
+			}
+		}
+		if !changed {
+			changed = before
+			break
+		}
+		changed = true
+	}
+	return changed
+}
+
+// filter splits mask m by the truth of cond: the lengths possible when it is true, and when it is false.
+func (a *arityFlow) filter(cond ssa.Value, m uint16, f *ssa.Function, depth int) (t, fl uint16) {
+	if depth > 6 {
+		return m, m
+	}
+	switch x := cond.(type) {
+	case *ssa.UnOp:
+		if x.Op == token.NOT {
+			t, fl = a.filter(x.X, m, f, depth+1)
+			return fl, t
+		}
+		if x.Op == token.MUL {
+			if v := a.cellValue(x.X, f); v != nil {
+				return a.filter(v, m, f, depth+1)
+			}
+		}
+	case *ssa.Phi:
+		// the value form of a && b / a || b: edges that carry a constant contribute it, the others their own condition
+		var tm, fm uint16
+		for _, e := range x.Edges {
+			if k, ok := e.(*ssa.Const); ok && k.Value != nil {
+				if k.Value.ExactString() == "true" {
+					tm |= m
+				} else {
+					fm |= m
+				}
+				continue
+			}
+			et, ef := a.filter(e, m, f, depth+1)
+			tm |= et
+			fm |= ef
+		}
+		return tm, fm
+	case *ssa.Parameter:
+		// a boolean parameter that every call inside the family binds to the same condition on the length
+		if !isBoolType(x.Type()) || f == a.exec {
+			return m, m
+		}
+		idx := -1
+		for i, p := range f.Params {
+			if p == x {
+				idx = i
+			}
+		}
+		first := true
+		var tm, fm uint16
+		for g := range a.family {
+			for _, b := range g.Blocks {
+				for _, in := range b.Instrs {
+					ci, ok := in.(ssa.CallInstruction)
+					if !ok || a.calleeOf(ci) != f || idx < 0 || idx >= len(ci.Common().Args) {
+						continue
+					}
+					et, ef := a.filter(ci.Common().Args[idx], arityAll, g, depth+1)
+					if first {
+						tm, fm, first = et, ef, false
+					} else {
+						tm |= et
+						fm |= ef
+					}
+				}
+			}
+		}
+		if first {
+			return m, m
+		}
+		return m & tm, m & fm
+	case *ssa.BinOp:
+		k, isLen, flipped := int64(0), false, false
+		if kk, ok := constInt(x.Y); ok && a.isLenCmd(x.X, f) {
+			k, isLen = kk, true
+		} else if kk, ok := constInt(x.X); ok && a.isLenCmd(x.Y, f) {
+			k, isLen, flipped = kk, true, true
+		}
+		if !isLen {
+			return m, m
+		}
+		op := x.Op
+		if flipped {
+			switch op {
+			case token.LSS:
+				op = token.GTR
+			case token.GTR:
+				op = token.LSS
+			case token.LEQ:
+				op = token.GEQ
+			case token.GEQ:
+				op = token.LEQ
+			}
+		}
+		for i := 0; i <= 9; i++ {
+			if m&(1<<uint(i)) == 0 {
+				continue
+			}
+			// bit 9 stands for every length >= 9: an outcome is possible there if some such length produces it
+			var yes, no bool
+			n := int64(i)
+			if i < 9 {
+				switch op {
+				case token.EQL:
+					yes = n == k
+				case token.NEQ:
+					yes = n != k
+				case token.LSS:
+					yes = n < k
+				case token.LEQ:
+					yes = n <= k
+				case token.GTR:
+					yes = n > k
+				case token.GEQ:
+					yes = n >= k
+				default:
+					yes, no = true, true
+				}
+				if op == token.EQL || op == token.NEQ || op == token.LSS || op == token.LEQ || op == token.GTR || op == token.GEQ {
+					no = !yes
+				}
+			} else {
+				switch op {
+				case token.EQL:
+					yes, no = k >= 9, true
+				case token.NEQ:
+					yes, no = true, k >= 9
+				case token.LSS:
+					yes, no = k > 9, true
+				case token.LEQ:
+					yes, no = k >= 9, true
+				case token.GTR:
+					yes, no = true, k >= 9
+				case token.GEQ:
+					yes, no = true, k > 9
+				default:
+					yes, no = true, true
+				}
+			}
+			if yes {
+				t |= 1 << uint(i)
+			}
+			if no {
+				fl |= 1 << uint(i)
+			}
+		}
+		return t, fl
+	}
+	return m, m
+}
+
+// cellValue: the one value stored in a variable cell (a local, or a variable captured by the closure f).
+func (a *arityFlow) cellValue(addr ssa.Value, f *ssa.Function) ssa.Value {
+	switch x := addr.(type) {
+	case *ssa.Alloc:
+		return singleStore(x)
+	case *ssa.FreeVar:
+		par := f.Parent()
+		if par == nil {
+			return nil
+		}
+		for _, b := range par.Blocks {
+			for _, in := range b.Instrs {
+				mc, ok := in.(*ssa.MakeClosure)
+				if !ok || mc.Fn != ssa.Value(f) {
+					continue
+				}
+				for i, fv := range f.FreeVars {
+					if fv == x && i < len(mc.Bindings) {
+						if al, ok := mc.Bindings[i].(*ssa.Alloc); ok {
+							return singleStore(al)
+						}
+						if fv2, ok := mc.Bindings[i].(*ssa.FreeVar); ok {
+							return a.cellValue(fv2, par)
+						}
+					}
+				}
+			}
+		}
+	}
+	return nil
+}
+
+// isLenCmd: v is len(cmd) of the executor's argument vector (directly, through a local, or captured).
+func (a *arityFlow) isLenCmd(v ssa.Value, f *ssa.Function) bool {
+	for i := 0; i < 6; i++ {
+		switch x := v.(type) {
+		case *ssa.Call:
+			if b, ok := x.Call.Value.(*ssa.Builtin); ok && b.Name() == "len" {
+				return a.isCmd(x.Call.Args[0], f, 0)
+			}
+			return false
+		case *ssa.UnOp:
+			if x.Op != token.MUL {
+				return false
+			}
+			cv := a.cellValue(x.X, f)
+			if cv == nil {
+				return false
+			}
+			if fv, ok := x.X.(*ssa.FreeVar); ok {
+				_ = fv
+				f = f.Parent()
+			}
+			v = cv
+		default:
+			return false
+		}
+	}
+	return false
+}
+
+func (a *arityFlow) isCmd(v ssa.Value, f *ssa.Function, depth int) bool {
+	if depth > 4 || f == nil {
+		return false
+	}
+	switch x := v.(type) {
+	case *ssa.Parameter:
+		if x == a.cmd {
+			return true
+		}
+		// a helper that is handed the vector unchanged at every call inside the family
+		idx := -1
+		for i, p := range f.Params {
+			if p == x {
+				idx = i
+			}
+		}
+		if idx < 0 || f == a.exec {
+			return false
+		}
+		any := false
+		for g := range a.family {
+			for _, b := range g.Blocks {
+				for _, in := range b.Instrs {
+					ci, ok := in.(ssa.CallInstruction)
+					if !ok || a.calleeOf(ci) != f || idx >= len(ci.Common().Args) {
+						continue
+					}
+					if !a.isCmd(ci.Common().Args[idx], g, depth+1) {
+						return false
+					}
+					any = true
+				}
+			}
+		}
+		return any
+	case *ssa.UnOp:
+		if x.Op == token.MUL {
+			if cv := a.cellValue(x.X, f); cv != nil {
+				if _, ok := x.X.(*ssa.FreeVar); ok {
+					return a.isCmd(cv, f.Parent(), depth+1)
+				}
+				return a.isCmd(cv, f, depth+1)
+			}
+		}
+	}
+	return false
+}
+
+// at returns the lengths with which the block of instruction in can be reached.
+func (a *arityFlow) at(in ssa.Instruction) (uint16, bool) {
+	if in == nil || in.Block() == nil || !a.family[in.Parent()] {
+		return 0, false
+	}
+	m, ok := a.in[in.Block()]
+	return m, ok && m != 0
+}
